@@ -136,29 +136,44 @@ let mk_mdp s a (p : q list list list) (r : q list list) gamma : mdp =
 
 (* ---------- block groups shared by the fresh-solver cases and the solver-reuse sequences ---------- *)
 (* four ValueIteration answers (Model, SparseModel, UserModel, QueryOnly) for the tables (t, rw) *)
-let judge_vi4 sfx reg (g : gmodel) tiny h tol v0 (r : cursor) =
+let judge_vi4 sfx reg (g : gmodel) tiny rmax h tol v0 (r : cursor) =
   let dense = dense_of_g g in
   let sparse = sparse_of_g g in
   let n = nat_of_int h in
-  let bd = read_vi_block r in let bs = read_vi_block r in let bu = read_vi_block r in let bq = read_vi_block r in
+  let bd = read_vi_block r in
+  let sp = next_int r = 1 in
+  let bs = if sp then read_vi_block r else bd in
+  let bu = read_vi_block r in let bq = read_vi_block r in
+  (* the sparse constructor validates the stored table: model's prediction vs the code (C) *)
+  if sp <> sparse_accepts g then disagree "sparse_accepts" ("SparseModel::SparseModel" ^ sfx) ("impl " ^ string_of_bool sp ^ " model " ^ string_of_bool (sparse_accepts g));
   (* O first, on the implementation's outputs; all four representations against the same MDP
      (the sparse one against the sparsified MDP when entries are dropped) *)
   let rd = ref_vi dense v0 in
   let rsp = if tiny then ref_vi sparse v0 else rd in
   oracle_vi ("ValueIteration<Model>" ^ sfx) reg dense rd h tol v0 bd;
-  oracle_vi ("ValueIteration<SparseModel>" ^ sfx) reg (if tiny then sparse else dense) rsp h tol v0 bs;
+  if sp then oracle_vi ("ValueIteration<SparseModel>" ^ sfx) reg (if tiny then sparse else dense) rsp h tol v0 bs;
   oracle_vi ("ValueIteration<UserModel>" ^ sfx) reg dense rd h tol v0 bu;
   oracle_vi ("ValueIteration<QueryOnly>" ^ sfx) reg dense rd h tol v0 bq;
   (* repr_independent on the implementation: same answers from all representations *)
   let sc = scale_of dense bd.v in
-  if not tiny then begin
+  (* sparse_error_term on the implementation: entries were dropped, the constructor accepted the table:
+     |V_sparse - V_dense| <= epsS*(1 + rmax + gamma*B)/(1-gamma), B = max |dp_sparse k|, k < h *)
+  if sp && tiny && not (use_tolerance tol) && h > 0 && start_of dense v0 = List.map (fun _ -> q_zero) (start_of dense v0) then begin
+    let eps = q_of_ints 1 1000000 in
+    let b = List.fold_left (fun acc k -> q_max acc (q_maxabs (rsp k))) q_zero (List.init h (fun k -> k)) in
+    let eta = q_mul eps (q_add q_one (q_add rmax (q_mul dense.gam b))) in
+    let bound = q_add (vio_qdiv eta (q_sub q_one dense.gam)) (slack reg sc) in
+    if not (closeb bound bs.v bd.v) then
+      oracle_fail "sparse_error_term" ("ValueIteration<SparseModel>" ^ sfx) ("sparse and dense values differ by more than " ^ string_of_q bound)
+  end;
+  if sp && not tiny then begin
     if not (list_eq reg sc bd.v bs.v && list_eq reg sc (flat bd.qf) (flat bs.qf)) then oracle_fail "repr_independent" ("ValueIteration<SparseModel>" ^ sfx) "sparse and dense answers differ"
   end;
   if not (list_eq reg sc bd.v bu.v && list_eq reg sc (flat bd.qf) (flat bu.qf)) then oracle_fail "repr_independent" ("ValueIteration<UserModel>" ^ sfx) "user-defined and dense answers differ";
   if not (list_eq reg sc bd.v bq.v && list_eq reg sc (flat bd.qf) (flat bq.qf)) then oracle_fail "repr_independent" ("ValueIteration<QueryOnly>" ^ sfx) "query-only and dense answers differ";
   (* C *)
   corr_vi ("ValueIteration<Model>" ^ sfx) reg sc (vi_run dense n tol v0) bd;
-  corr_vi ("ValueIteration<SparseModel>" ^ sfx) reg sc (vi_run sparse n tol v0) bs;
+  if sp then corr_vi ("ValueIteration<SparseModel>" ^ sfx) reg sc (vi_run sparse n tol v0) bs;
   corr_vi ("ValueIteration<UserModel>" ^ sfx) reg sc (vi_run_g g n tol v0) bu;
   corr_vi ("ValueIteration<QueryOnly>" ^ sfx) reg sc (vi_run_g (g_of_mdp dense) n tol v0) bq
 
@@ -166,17 +181,21 @@ let judge_pe4 sfx reg (g : gmodel) tiny pol h tol v0 (r : cursor) =
   let dense = dense_of_g g in
   let sparse = sparse_of_g g in
   let n = nat_of_int h in
-  let bd = read_pe_block r in let bs = read_pe_block r in let bu = read_pe_block r in let bq = read_pe_block r in
+  let bd = read_pe_block r in
+  let sp = next_int r = 1 in
+  let bs = if sp then read_pe_block r else bd in
+  let bu = read_pe_block r in let bq = read_pe_block r in
+  if sp <> sparse_accepts g then disagree "sparse_accepts" ("SparseModel::SparseModel" ^ sfx) ("impl " ^ string_of_bool sp ^ " model " ^ string_of_bool (sparse_accepts g));
   let rd = ref_pe dense pol v0 in
   let rsp = if tiny then ref_pe sparse pol v0 else rd in
   oracle_pe ("PolicyEvaluation<Model>" ^ sfx) reg dense pol rd h tol v0 bd;
-  oracle_pe ("PolicyEvaluation<SparseModel>" ^ sfx) reg (if tiny then sparse else dense) pol rsp h tol v0 bs;
+  if sp then oracle_pe ("PolicyEvaluation<SparseModel>" ^ sfx) reg (if tiny then sparse else dense) pol rsp h tol v0 bs;
   oracle_pe ("PolicyEvaluation<UserModel>" ^ sfx) reg dense pol rd h tol v0 bu;
   oracle_pe ("PolicyEvaluation<QueryOnly>" ^ sfx) reg dense pol rd h tol v0 bq;
   let sc = scale_of dense bd.pv in
   if not (list_eq reg sc bd.pv bu.pv) then oracle_fail "repr_independent" ("PolicyEvaluation<UserModel>" ^ sfx) "user-defined and dense answers differ";
   corr_pe ("PolicyEvaluation<Model>" ^ sfx) reg sc (pe_run dense pol n tol v0) bd;
-  corr_pe ("PolicyEvaluation<SparseModel>" ^ sfx) reg sc (pe_run sparse pol n tol v0) bs;
+  if sp then corr_pe ("PolicyEvaluation<SparseModel>" ^ sfx) reg sc (pe_run sparse pol n tol v0) bs;
   corr_pe ("PolicyEvaluation<UserModel>" ^ sfx) reg sc (pe_run_g g pol n tol v0) bu;
   corr_pe ("PolicyEvaluation<QueryOnly>" ^ sfx) reg sc (pe_run_g (g_of_mdp dense) pol n tol v0) bq
 
@@ -239,7 +258,7 @@ let judge_seq reg rs (c : cursor) (r : cursor) : bool * string =
       let tiny = has_tiny t m.r in
       if not (wf_mdpb m) && reg = Dy then failwith "generator produced an ill-formed dyadic MDP";
       let sfx = "@call" ^ string_of_int i in
-      judge_vi4 sfx reg g tiny h tol v0 r;
+      judge_vi4 sfx reg g tiny (q_maxabs (flat (flat rw))) h tol v0 r;
       judge_pe4 sfx reg g tiny pol1 h tol v0 r;
       judge_pe4 (sfx ^ "b") reg g tiny pol2 h tol v0 r;
       let _ = judge_pi2 sfx reg g hpi q_zero bps r in
@@ -249,6 +268,13 @@ let judge_seq reg rs (c : cursor) (r : cursor) : bool * string =
       let (v1, a1, qf1) = l1 in let (v2, a2, qf2) = l2 in
       corr_lp ("LinearProgramming<Model>" ^ sfx) (scale_of m v1) (lp_post m v1) a1 qf1;
       corr_lp ("LinearProgramming<UserModel>" ^ sfx) (scale_of m v2) (lp_post_g g v2) a2 qf2;
+      if next_int r = 1 then begin
+        let l3 = read_lp_block r in
+        let ms = if tiny then sparse_of_g g else m in
+        let _ = oracle_lp ("LinearProgramming<SparseModel>" ^ sfx) ms l3 in
+        let (v3, a3, qf3) = l3 in
+        corr_lp ("LinearProgramming<SparseModel>" ^ sfx) (scale_of m v3) (lp_post (sparse_of_g g) v3) a3 qf3
+      end;
       shapes := (s, a) :: !shapes
     done;
     let same = (match !shapes with x :: rest -> List.exists (fun y -> y = x) rest | [] -> false) in
@@ -275,7 +301,7 @@ let judge _id (c : cursor) (r : cursor) : bool * string =
     let nontrivial = h > 0 && s > 1 in
     let tag = kind ^ "." ^ rs ^ (if uset then ".tol" else ".exact") ^ (if tiny then ".tiny" else "") in
     if kind = "vi" then begin
-      judge_vi4 "" reg g tiny h tol v0 r;
+      judge_vi4 "" reg g tiny (q_maxabs (flat (flat rw))) h tol v0 r;
       (nontrivial, tag)
     end else begin
       let pol = chunks a (List.init (s * a) (fun _ -> next_q c)) in
@@ -324,6 +350,16 @@ let judge _id (c : cursor) (r : cursor) : bool * string =
     (* C: post-processing of the LP values (Q-table and greedy actions) against the model *)
     corr_lp "LinearProgramming<Model>" sc (lp_post m lpv) lpa lpq;
     corr_lp "LinearProgramming<UserModel>" sc (lp_post_g g lpv2) lpa2 lpq2;
+    (* the same on MDP::SparseModel (generator keeps clear of the dropped band: same MDP) *)
+    let sp = next_int r = 1 in
+    if sp <> sparse_accepts g then disagree "sparse_accepts" "SparseModel::SparseModel" "model/impl differ";
+    if sp then begin
+      let (lpv3, lpa3, lpq3) = read_lp_block r in
+      let qpi3 = read_qtable r in
+      chk_lp "LinearProgramming<SparseModel>" (lpv3, lpa3, lpq3);
+      chk_pi "PolicyIteration<SparseModel>" qpi3;
+      corr_lp "LinearProgramming<SparseModel>" sc (lp_post (sparse_of_g g) lpv3) lpa3 lpq3
+    end;
     (s > 1 && a > 1, "solve")
   | "via" ->
     (* start ValueFunction with a wrong-size action vector: the answer must not depend on it *)
